@@ -21,7 +21,7 @@ try:
         props = (a.props.split(',') if a.props else [a.pid])
         out = {}
         for pid in props:
-            env = dict(os.environ, VERIF_REPO=wt)
+            env = dict(os.environ, VERIF_REPO=wt, VERIF_EVIDENCE_DIR='/tmp/seedrun_evidence')  # never clobber evidence/
             p = subprocess.run(['/verif/check', pid], cwd='/verif', env=env, capture_output=True, text=True)
             lines = [l for l in p.stdout.split('\n') if l.startswith(('VIOLATION', 'OK ', 'KNOWN-FINDING'))]
             concrete = any(l.startswith('VIOLATION') and 'no-failing-input-found' not in l for l in lines)
